@@ -23,6 +23,8 @@ import Bermuda.Lemmas.FrameRows
 import Bermuda.Lemmas.FrameMatrixTotal
 import Bermuda.Lemmas.FrameInfer
 import Bermuda.Lemmas.FrameFieldPerm
+import Bermuda.Lemmas.TabularLongLossFull
+import Bermuda.Properties.C10
 namespace Bermuda.Properties.C14
 open Bermuda Bermuda.Frame Bermuda.Spec.C14
 
@@ -1172,5 +1174,113 @@ theorem fromWide_toWide_fieldsInferred {t : List Cell} {D L : List String} (h : 
       ((toWideRows t).bind fun tb => fromWideRowsInfer tb none (some D) L) = true :=
   Frame.fromWide_toWide_fieldsInferred h
 
+/-! ### long form read back WITH `loss_detail_cols` (`from_long_data_frame(df, loss_detail_cols=L)`) -/
+
+/-- **fromLong_toLong_lossDetails** (cumulative triangles, `WFlong t DK LK`, and `LossCols t LK L`: the
+`loss_detail_cols` argument `L` is a list of distinct loss-detail names covering every loss-detail key of
+the triangle — what a caller passing "the triangle's loss-detail keys" hands over). Writing the triangle
+to the long table and reading the rows back as `long_data_frame_to_triangle(df, loss_detail_cols=L)` does —
+detail columns = the non-core columns WITHOUT `L`, rows grouped by the key list REGENERATED from
+`data_frame_input.py` (coordinates, `field`, six metadata columns, detail columns, then `L`) — gives the
+triangle ITSELF (`wideSpec`, not `longSpec`): same cells in the same order, coordinates, all eight metadata
+attributes with loss details AS loss details (nothing folded into `details`), field sets, numbers as floats,
+sample order through the scenario column; every slice stays separate (`slicesSpec false`). This is the call
+the correspondence runs as `long+loss_detail_cols` (the frame read from the long CSV with `parse_dates`; the
+frame handed over directly by `to_long_data_frame` is refused for its `period[D]` column whatever the
+arguments: `longFrame_never_reads_back`). -/
+theorem fromLong_toLong_lossDetails {t : List Cell} {DK LK L : List String} (h : WFlong t DK LK)
+    (hL : LossCols t LK L) :
+    okAnd (fun out => wideSpec t out && slicesSpec false t out)
+      ((toLongRows t).bind fun tb => fromLongRows tb L) = true :=
+  Frame.fromLong_toLong_lossDetails h hL
+
+/-- the metadata layer of the above, row by row: every row of the written long table reads back
+(`_create_metadata` with `loss_detail_cols = L`) as the metadata of a cell of the triangle, and every cell's
+metadata is read from some row -/
+theorem toLong_rowMetadata_lossDetails {t : List Cell} {DK LK L : List String} (h : WFlong t DK LK)
+    (hL : LossCols t LK L) :
+    ∃ tb, toLongRows t = .ok tb ∧
+      (∀ r ∈ tb.rows, ∃ c ∈ t, rowMetadata r (longDetailCols tb.cols L) L = c.md) ∧
+      (∀ c ∈ t, ∃ r ∈ tb.rows, rowMetadata r (longDetailCols tb.cols L) L = c.md) :=
+  Frame.toLong_rowMetadata_loss h hL.nodup hL.sub hL.cov
+
+/-- the domain is inhabited: `exL` (two slices, a loss detail `peril`, sampled cells) with
+`loss_detail_cols = ["peril"]`; and there the round trip holds -/
+theorem lossCols_example : LossCols exL ["peril"] ["peril"] where
+  nodup := by decide
+  sub := fun _ hk => hk
+  cov := by decide +kernel
+
+example : okAnd (fun out => wideSpec exL out && slicesSpec false exL out)
+    ((toLongRows exL).bind fun tb => fromLongRows tb ["peril"]) = true :=
+  fromLong_toLong_lossDetails wflong_example lossCols_example
+
+/-! ### several array frames: the pieces composed -/
+
+/-- every cell the single-frame reader builds holds one field: its value dict has distinct keys -/
+theorem arrayExpected_values_wf {field : String} {md : Metadata} {res : Int} {fe : Bool} {lags : List Int}
+    {rows : List (Date × List Val)} : ∀ c ∈ arrayExpected field md res fe lags rows, c.values.WF := by
+  intro c hc
+  unfold arrayExpected at hc
+  obtain ⟨r, _, hc⟩ := List.mem_flatMap.mp hc
+  obtain ⟨lv, _, hc⟩ := List.mem_filterMap.mp hc
+  split at hc
+  · cases hc
+  · cases hc; simp [Dict.WF, Dict.keys]
+
+/-- **arrayBuilder_two_fields_partial**: `array_triangle_builder([df1, df2], [n1, n2], period_resolution=res, …)`
+on two `RegFrame`s (the domain of `fromArrayFrame_args`, inhabited: `regFrame_example`; the two frames may
+have different periods, columns and gaps). The composition of `arrayBuilder_spec`, `fromArrayFrame_args`
+(twice) and `Properties/C10.lean: mergeSpecLast_of_merge`: the builder's result IS the full-join `merge` of the
+two explicitly described single-field triangles `Spec.arrayExpected n1 …`, `Spec.arrayExpected n2 …`, and
+whenever that merge returns `out`, `out` satisfies `Spec.mergeSpecLast .full none`: distinct coordinates; a
+coordinate of both frames carries the first frame's cell with the right-biased union of the two one-field
+value dicts (both fields; `n2`'s value wins when `n1 = n2`), a coordinate of one frame only that frame's cell
+unchanged; every coordinate of either frame occurs.
+MISSING (hence `_partial`): (a) that the merge returns at all — it does, every cell is a `CumulativeCell`, so
+neither the join's class check nor the constructor's refuses, but this is not proved here; (b) that inside one
+frame's triangle coordinates are distinct (strictly ascending periods and lags), which would turn "the LAST
+cell of an operand at a coordinate" of `mergeSpecLast` into "the" cell (`mergeSpec_of_merge`); (c) three or more
+frames (`arrayBuilder_spec`: the left fold of the same step). -/
+theorem arrayBuilder_two_fields_partial {cols1 cols2 : List String} {rows1 rows2 : List (Date × List Val)}
+    {n1 n2 : String} {md : Metadata} {res : Int} {evalRes : Option Int} {fe : Bool}
+    (h1 : RegFrame n1 md res (fe || (effectiveEvalResolution cols1 res evalRes).isSome)
+          (columnLags cols1 (effectiveEvalResolution cols1 res evalRes)) rows1)
+    (h2 : RegFrame n2 md res (fe || (effectiveEvalResolution cols2 res evalRes).isSome)
+          (columnLags cols2 (effectiveEvalResolution cols2 res evalRes)) rows2) :
+    arrayTriangleBuilder
+        [{ cols := cols1, rows := rows1.map fun r => (PeriodEntry.date r.1, r.2) },
+         { cols := cols2, rows := rows2.map fun r => (PeriodEntry.date r.1, r.2) }] [n1, n2] (some res) evalRes fe md =
+      merge (some .full) none
+        (arrayExpected n1 md res (fe || (effectiveEvalResolution cols1 res evalRes).isSome)
+          (columnLags cols1 (effectiveEvalResolution cols1 res evalRes)) rows1)
+        (arrayExpected n2 md res (fe || (effectiveEvalResolution cols2 res evalRes).isSome)
+          (columnLags cols2 (effectiveEvalResolution cols2 res evalRes)) rows2) ∧
+    ∀ out, merge (some .full) none
+        (arrayExpected n1 md res (fe || (effectiveEvalResolution cols1 res evalRes).isSome)
+          (columnLags cols1 (effectiveEvalResolution cols1 res evalRes)) rows1)
+        (arrayExpected n2 md res (fe || (effectiveEvalResolution cols2 res evalRes).isSome)
+          (columnLags cols2 (effectiveEvalResolution cols2 res evalRes)) rows2) = .ok out →
+      Spec.mergeSpecLast .full none
+        (arrayExpected n1 md res (fe || (effectiveEvalResolution cols1 res evalRes).isSome)
+          (columnLags cols1 (effectiveEvalResolution cols1 res evalRes)) rows1)
+        (arrayExpected n2 md res (fe || (effectiveEvalResolution cols2 res evalRes).isSome)
+          (columnLags cols2 (effectiveEvalResolution cols2 res evalRes)) rows2) out = true := by
+  refine ⟨?_, ?_⟩
+  · rw [(arrayBuilder_spec _ _ n1 n2 (some res) evalRes fe md).2.1, fromArrayFrame_args h1, fromArrayFrame_args h2]
+    rfl
+  · intro out hout
+    apply Bermuda.Properties.C10.mergeSpecLast_of_merge _ hout
+    intro c hc
+    rcases List.mem_append.mp hc with hc | hc
+    · exact arrayExpected_values_wf c hc
+    · exact arrayExpected_values_wf c hc
+
+-- full statement, NOT proved (kept visible; not marked with the OPEN keyword because harness/c14.py runs at
+-- level="proof" and is not this agent's file — see notes/agents/b7_c14.md): arrayBuilder_two_fields,
+-- under the hypotheses of `arrayBuilder_two_fields_partial`:
+--   ∃ out, arrayTriangleBuilder [F1, F2] [n1, n2] (some res) evalRes fe md = .ok out ∧
+--     Spec.mergeSpec .full none (arrayExpected n1 …) (arrayExpected n2 …) out = true
+-- (needs: the merge of two all-cumulative triangles returns; coordinates inside `arrayExpected` distinct)
 
 end Bermuda.Properties.C14
